@@ -995,7 +995,7 @@ var (
 	nsPool    = []string{"default", "ns1"}
 	namePool  = []string{"a", "ab", "a/b", "b", "é"}
 	weirdName = []string{"", "A", "a\x00b", "*"}
-	uidPool   = []string{"u1", "u2", "u3"}
+	uidPool   = []string{"u1", "u2", "u3", "U1", "k9", "01HZXA"}
 )
 
 func isRetired(t *pbresource.Type) bool { return t.Group == retiredT.g && t.GroupVersion == retiredT.gv }
@@ -1043,6 +1043,9 @@ func (g *gen) target() (*pbresource.ID, *pbresource.Resource) {
 		cur := g.w.present[hx.Pick(g.r, keys)]
 		id := clone(cur.Id)
 		switch {
+		case g.r.Chance(12):
+			id.Uid = nearUid(g.r, cur.Id.Uid) // almost the stored uid
+			g.w.tag("uid:near-variant-presented")
 		case g.r.Chance(15):
 			id.Uid = hx.Pick(g.r, uidPool) // maybe a stale lifetime
 		case g.r.Chance(6):
@@ -1055,6 +1058,36 @@ func (g *gen) target() (*pbresource.ID, *pbresource.Resource) {
 	}
 	id := g.id()
 	return id, g.w.peek(id)
+}
+
+// nearUid returns a uid that is "almost" the given one: another letter case (ASCII and the Unicode fold
+// k ↔ KELVIN SIGN), one character more or less, padded with white space, or empty. Uids are opaque byte
+// strings for the store: every one of them names a different lifetime.
+func nearUid(r *hx.RNG, uid string) string {
+	vs := []string{strings.ToUpper(uid), strings.ToLower(uid), strings.ReplaceAll(strings.ToLower(uid), "k", "\u212a"),
+		uid + "x", uid + " ", " " + uid, uid + "\t", ""}
+	if len(uid) > 1 {
+		vs = append(vs, uid[:len(uid)-1], uid[1:])
+	}
+	if len(uid) > 0 {
+		c := uid[0]
+		switch {
+		case c >= 'a' && c <= 'z':
+			vs = append(vs, string(c-32)+uid[1:])
+		case c >= 'A' && c <= 'Z':
+			vs = append(vs, string(c+32)+uid[1:])
+		}
+	}
+	var diff []string
+	for _, v := range vs {
+		if v != uid {
+			diff = append(diff, v)
+		}
+	}
+	if len(diff) == 0 {
+		return uid + "x"
+	}
+	return hx.Pick(r, diff)
 }
 
 func (g *gen) version(cur *pbresource.Resource, key string) string {
